@@ -86,6 +86,11 @@ type hist struct {
 	classes   map[string]int
 	knownOnce sync.Once
 
+	u           universe        // the names the rows of this case are drawn from (compact_test.go)
+	cs          *compactState   // completed flushes / compactions, for the evidence classes only
+	compactions []compactionRec // compactions that ran in this case
+	switched    map[string]bool // dictionary families whose compacted files are in use by the store
+
 	imagesChecked, imagesInsideFlush, imagesAfterSync int
 	idsSinceSync                                      int // ids handed out since the last sequence sync (= start of the last metadata Flush)
 	ntHashes                                          []string
@@ -116,28 +121,27 @@ func (h *hist) fatalf(format string, args ...any) {
 }
 
 var (
-	nsUniverse     = []string{"default-ns", "ns-a", "ns-b"}
-	metricUniverse = []string{"cpu", "mem", "disk.io", "net"}
-	keyUniverse    = []string{"host", "zone", "app"}
-	valUniverse    = []string{"a", "b", "c", "a1", "ab"}
-	fieldUniverse  = []string{"f0", "f1", "f2", "load"}
+	nsUniverse    = []string{"default-ns", "ns-a", "ns-b"}
+	keyUniverse   = []string{"host", "zone", "app"}
+	valUniverse   = []string{"a", "b", "c", "a1", "ab"}
+	fieldUniverse = []string{"f0", "f1", "f2", "load"}
 )
 
 func (h *hist) drawRow(label string) rowSpec {
 	t := h.t
 	r := rowSpec{
-		NS:   rapid.SampledFrom(nsUniverse).Draw(t, label+"ns"),
-		Name: rapid.SampledFrom(metricUniverse).Draw(t, label+"metric"),
+		NS:   rapid.SampledFrom(h.u.ns).Draw(t, label+"ns"),
+		Name: rapid.SampledFrom(h.u.metrics).Draw(t, label+"metric"),
 	}
 	nTags := rapid.IntRange(0, 3).Draw(t, label+"nTags")
 	for i := 0; i < nTags; i++ {
-		k := rapid.SampledFrom(keyUniverse).Draw(t, label+"key")
+		k := rapid.SampledFrom(h.u.keys).Draw(t, label+"key")
 		var v string
 		if rapid.IntRange(0, 3).Draw(t, label+"freshVal") == 0 {
 			h.fresh++
 			v = fmt.Sprintf("v%d", h.fresh)
 		} else {
-			v = rapid.SampledFrom(valUniverse).Draw(t, label+"val")
+			v = rapid.SampledFrom(h.u.vals).Draw(t, label+"val")
 		}
 		r.Tags = append(r.Tags, kvPair{k, v})
 	}
@@ -223,12 +227,12 @@ func (h *hist) drawQuery(label string) querySpec {
 	if mm != nil {
 		knownNS, knownMetric, knownKeys = []string{mk.NS}, []string{mk.Name}, sortedKeys(mm.tagKeys)
 	}
-	q.NS = h.pick(label+"ns", knownNS, append([]string{"ns-c", "d", "zz-ns", "other"}, nsUniverse...))
+	q.NS = h.pick(label+"ns", knownNS, append([]string{"ns-c", "d", "zz-ns", "other"}, histNSPool...))
 	if q.Kind == qNamespaces {
 		q.Prefix = cutName(t, label+"cut", q.NS)
 		return q
 	}
-	q.Metric = h.pick(label+"metric", knownMetric, append([]string{"cp", "cpu.", "zz-metric", "nope"}, metricUniverse...))
+	q.Metric = h.pick(label+"metric", knownMetric, append([]string{"cp", "cpu.", "zz-metric", "nope"}, histMetricPool...))
 	if q.Kind == qMetrics {
 		q.Prefix = cutName(t, label+"cut", q.Metric)
 		q.Metric = ""
@@ -246,7 +250,7 @@ func (h *hist) drawQuery(label string) querySpec {
 		knownVals = sortedKeys(mm.tagKeys[q.Key].values)
 	}
 	val := func(l string) string {
-		return h.pick(label+l, knownVals, append([]string{"v1", "v2", "zz-val", "nope"}, valUniverse...))
+		return h.pick(label+l, knownVals, append([]string{"v1", "v2", "zz-val", "nope"}, histValPool...))
 	}
 	switch q.Kind {
 	case qTagValues:
@@ -319,6 +323,7 @@ func (h *hist) flushStep() {
 		h.logf("metadata Flush")
 		h.runFlush("meta", h.n.meta.Flush)
 		h.dur.Meta = h.metaPrepSeq
+		h.flushed(-1, h.metaPrepSeq)
 		h.classes["meta-flush"]++
 		h.phase = phMetaFlushed
 		if len(h.pending) == 0 {
@@ -340,6 +345,7 @@ func (h *hist) flushStep() {
 				h.fatalf("metadata Flush failed: %v", err)
 			}
 			h.dur.Meta = h.m.seq
+			h.flushed(-1, h.m.seq)
 			h.idsSinceSync = 0
 		}
 		h.cur, h.pending = h.pending[0], h.pending[1:]
@@ -352,6 +358,7 @@ func (h *hist) flushStep() {
 		h.logf("index %d Flush", h.cur)
 		h.runFlush(fmt.Sprintf("idx%d", h.cur), h.n.idx[h.cur].Flush)
 		h.dur.Idx[h.cur] = h.idxPrepSeq[h.cur]
+		h.flushed(h.cur, h.idxPrepSeq[h.cur])
 		h.classes["index-flush"]++
 		h.phase = phMetaFlushed
 		if len(h.pending) == 0 {
@@ -360,6 +367,16 @@ func (h *hist) flushStep() {
 	}
 }
 
+// inFlushName names the call in flight: "meta Flush", "idx0 Flush", "compaction".
+func (h *hist) inFlushName() string {
+	if h.inFlush == "compaction" {
+		return h.inFlush
+	}
+	return h.inFlush + " Flush"
+}
+
+// runFlush runs a Flush (or a compaction job) with its file-system seams observed: crash images,
+// nested creators / queries.
 func (h *hist) runFlush(what string, fn func() error) {
 	h.inFlush = what
 	h.nestBudget = rapid.IntRange(0, 2).Draw(h.t, "nestBudget")
@@ -368,12 +385,13 @@ func (h *hist) runFlush(what string, fn func() error) {
 	if what == "meta" {
 		h.idsSinceSync = 0 // Flush starts with the sequence sync
 	}
-	h.im.Begin(len(h.ops)-1, what+"Flush")
+	h.im.Begin(len(h.ops)-1, strings.ReplaceAll(h.inFlushName(), " ", ""))
 	err := fn()
 	h.im.End()
+	name := h.inFlushName()
 	h.inFlush = ""
 	if err != nil {
-		h.fatalf("%s Flush failed: %v", what, err)
+		h.fatalf("%s failed: %v", name, err)
 	}
 }
 
@@ -414,11 +432,11 @@ func (h *hist) onPoint(p crash.Point) {
 	}
 	if h.nestBudget > 0 && rapid.IntRange(0, 7).Draw(h.t, "nestHere") == 0 {
 		h.nestBudget--
-		h.write(fmt.Sprintf("[nested in %s Flush %s %s(%s)] ", h.inFlush, beforeAfter(p.Before), p.FSOp, filepath.Base(filepath.Dir(p.Path))))
+		h.write(fmt.Sprintf("[nested in %s %s %s(%s)] ", h.inFlushName(), beforeAfter(p.Before), p.FSOp, filepath.Base(filepath.Dir(p.Path))))
 	}
 	if h.nestQBudget > 0 && rapid.IntRange(0, 7).Draw(h.t, "nestQueryHere") == 0 {
 		h.nestQBudget--
-		h.query(fmt.Sprintf("[nested in %s Flush %s %s(%s)] ", h.inFlush, beforeAfter(p.Before), p.FSOp, filepath.Base(filepath.Dir(p.Path))))
+		h.query(fmt.Sprintf("[nested in %s %s %s(%s)] ", h.inFlushName(), beforeAfter(p.Before), p.FSOp, filepath.Base(filepath.Dir(p.Path))))
 	}
 }
 
@@ -455,6 +473,7 @@ func (h *hist) reopen() {
 		all.Idx[i] = h.m.seq
 	}
 	h.dur = all
+	h.reopened()
 	rm, err := checkRecovered(h.n, h.w, h.m, all, func(s string) { h.classes[s]++ })
 	if err != nil {
 		h.fatalf("after reopen: %v", err)
@@ -1004,7 +1023,9 @@ func runHistory(t *rapid.T, thorough bool) {
 		t: t, dir: dir, root: filepath.Join(dir, "live"), nIdx: nIdx, m: newModel(nIdx), thorough: thorough,
 		idxPrepSeq: make([]int, nIdx), dur: durable{Idx: make([]int, nIdx)},
 		imgDur: map[int]durable{}, classes: map[string]int{},
+		cs: newCompactState(nIdx), switched: map[string]bool{},
 	}
+	h.u = drawUniverse(t)
 	defer debug.SetPanicOnFault(debug.SetPanicOnFault(true))
 	h.w = newWire(rapid.SampledFrom(wireModes).Draw(t, "wireMode"))
 	h.im = &crash.Imager{Root: h.root, OutDir: filepath.Join(dir, "img"), OnPoint: h.onPoint}
@@ -1038,6 +1059,21 @@ func runHistory(t *rapid.T, thorough bool) {
 		"query":      step(func() { h.query("") }),
 		"flushStep":  step(h.flushStep),
 		"flushStep2": step(h.flushStep),
+		"writeBatch": step(func() {
+			for i := rapid.IntRange(2, 4).Draw(h.t, "batchRows"); i > 0; i-- {
+				h.write("")
+			}
+			h.classes["write-batch"]++
+		}),
+		"flushCycle": step(func() {
+			// a whole cycle (the rest of the running one) as dataFlushChecker.doFlush runs it
+			if h.phase == phIdle {
+				h.flushStep()
+			}
+			h.finishCycle()
+			h.classes["flush-cycle-as-one-step"]++
+		}),
+		"compact": step(h.compact),
 		"reopen": step(func() {
 			if h.phase != phIdle {
 				h.t.Skip("flush cycle in progress")
@@ -1054,6 +1090,9 @@ func runHistory(t *rapid.T, thorough bool) {
 			if err := checkAll(h.n, h.m, true); err != nil {
 				h.fatalf("live node: %v", err)
 			}
+			if len(h.switched) > 0 {
+				h.classes["live-oracle-runs-on-compacted-dictionaries"]++
+			}
 		}),
 	})
 	h.t = t
@@ -1065,7 +1104,7 @@ func runHistory(t *rapid.T, thorough bool) {
 		}
 	})
 
-	canon := fmt.Sprintf("%d|%s|%v", nIdx, h.w.mode, h.ops)
+	canon := fmt.Sprintf("%d|%s|%s|%v", nIdx, h.w.mode, h.u, h.ops)
 	h.classes["wire-"+h.w.mode] = 1
 	h.classes["wire-calls-with-reused-arguments"] = h.w.calls + h.w.rows
 	h.classes["wire-bytes-overwritten-after-return"] = h.w.overwritten
@@ -1074,11 +1113,12 @@ func runHistory(t *rapid.T, thorough bool) {
 	}
 	nt := h.classes["image-with-ids-after-sync"] > 0 && h.imagesChecked > 0
 	ev.Case("TestHistory", canon, nt, nil, map[string]any{
-		"index_databases": nIdx, "wire_mode": h.w.mode, "history": h.ops, "images_recovered": h.imagesChecked,
+		"index_databases": nIdx, "wire_mode": h.w.mode, "names": h.u.String(), "history": h.ops, "images_recovered": h.imagesChecked,
 	})
 	for _, hs := range h.ntHashes {
 		ev.Case("crash-points", canon+"|"+hs, true, nil, nil)
 	}
+	h.recordCompactions(canon)
 }
 
 func TestHistory(t *testing.T) {
